@@ -102,8 +102,8 @@ def deep(e):
         q = sorted(set([y for s_ in st for y in (s_ - 1, s_, s_ + 1)] + [-1, d - 1, d, d + 1]))
         idx = []
         for x in q:
-            i = e.get_event_index_at(x / TICK)
-            evx = e.get_event_at(x / TICK)
+            i = e.get_event_index_at(T(x))
+            evx = e.get_event_at(T(x))
             if (i is None) != (evx is None) or (i is not None and evx is not e[i]):
                 idx.append("event-at-differs")
             else:
@@ -208,7 +208,13 @@ def T(n):
     a RatioDuration or a DirectDuration object - chosen by the value itself, so that a case always replays the same"""
     n = int(n)
     k = (abs(n) // 3) % 10
-    if n < 0 or os.environ.get("VERIF_FLOAT_ARGS") == "1" or k < 5:
+    if os.environ.get("VERIF_FLOAT_ARGS") == "1":
+        return n / TICK
+    if n < 0:
+        return Fraction(n, TICK) if k == 5 else f"{n}/{TICK}" if k == 6 else n / TICK
+    if n % TICK == 0 and k < 3:
+        return n // TICK                    # whole beats as a plain int
+    if k < 5:
         return n / TICK
     if k == 5:
         return Fraction(n, TICK)
@@ -225,7 +231,14 @@ def apply_op(t, op):
     """Returns (result event, extra observations)."""
     r = apply_op1(t, op)
     _ROOTS.append(r[0])
+    if op[0] in IN_PLACE and r[0] is not t:
+        # the documented contract of the editing methods: they change the receiver and return it
+        r = (r[0], r[1] + [["result-is-not-the-receiver", snap(t)]])
     return r
+
+
+IN_PLACE = ("cut_out", "cut_off", "split_child_at", "squash_in", "slide_in", "extend_until", "remove_by", "tie_by", "tie_all",
+            "set_tag", "del_tag", "set_dur", "child")
 
 
 def apply_op1(t, op):
@@ -257,7 +270,9 @@ def apply_op1(t, op):
         prolong = op[1] in ("1", "true")
         if op[2] == "none":
             return t.extend_until(), []
-        return t.extend_until(T(op[2]), prolong_chronon=prolong), []
+        if prolong:
+            return t.extend_until(T(op[2])), []          # prolong_chronon=True is the documented default: not passed
+        return t.extend_until(T(op[2]), prolong_chronon=False), []
     if k == "sequentialize":
         r = t.sequentialize()
         return r, [["recv", snap(t)]] + aliased(r, t)
@@ -371,7 +386,10 @@ def run1(case):
         before = snap(t)
         ign = case[2] in ("1", "true")
         try:
-            parts = t.split_at(*[T(x) for x in case[3:]], ignore_invalid_split_point=ign)
+            if ign:
+                parts = t.split_at(*[T(x) for x in case[3:]], ignore_invalid_split_point=True)
+            else:
+                parts = t.split_at(*[T(x) for x in case[3:]])     # False is the documented default: not passed
         except Exception as e:  # noqa
             return err(e)
         _ROOTS.append(parts)
